@@ -1,11 +1,15 @@
 package main
 
 import (
+	"context"
+	"encoding/json"
 	"fmt"
+	"reflect"
 	"strings"
 
 	"gorm.io/gorm"
 	"gorm.io/gorm/clause"
+	"gorm.io/gorm/schema"
 )
 
 // Item is the model every read path works on (table "items").
@@ -14,6 +18,71 @@ type Item struct {
 	A  int
 	B  string
 	C  *int
+	L  Labels // self-serializing field of reference kind (field type T, serializer *T)
+	P  *Meta  // self-serializing pointer-to-struct field (field type *T is the serializer itself)
+}
+
+// Labels is its own serializer; Scan decodes into the receiver (json.Unmarshal
+// keeps the entries a map already has), so a scratch value that survives from
+// one row to the next shows up as rows sharing their entries.
+type Labels map[string]string
+
+func dbBytes(v interface{}) ([]byte, bool) {
+	switch t := v.(type) {
+	case []byte:
+		return t, true
+	case string:
+		return []byte(t), true
+	}
+	return nil, false
+}
+
+func (l *Labels) Scan(ctx context.Context, field *schema.Field, dst reflect.Value, dbValue interface{}) error {
+	b, ok := dbBytes(dbValue)
+	if !ok {
+		return nil // NULL
+	}
+	return json.Unmarshal(b, l)
+}
+
+func (l Labels) Value(ctx context.Context, field *schema.Field, dst reflect.Value, fieldValue interface{}) (interface{}, error) {
+	b, err := json.Marshal(l)
+	return string(b), err
+}
+
+// Meta is a struct that is its own serializer; the field holds a pointer to it.
+type Meta struct {
+	Tag  string `json:"tag"`
+	Nums []int  `json:"nums"`
+}
+
+func (m *Meta) Scan(ctx context.Context, field *schema.Field, dst reflect.Value, dbValue interface{}) error {
+	b, ok := dbBytes(dbValue)
+	if !ok {
+		return nil
+	}
+	return json.Unmarshal(b, m)
+}
+
+func (m *Meta) Value(ctx context.Context, field *schema.Field, dst reflect.Value, fieldValue interface{}) (interface{}, error) {
+	b, err := json.Marshal(m)
+	return string(b), err
+}
+
+func labelsText(l Labels) string {
+	if l == nil {
+		return "NULL"
+	}
+	b, _ := json.Marshal(l) // keys sorted
+	return string(b)
+}
+
+func metaText(m *Meta) string {
+	if m == nil {
+		return "NULL"
+	}
+	b, _ := json.Marshal(m)
+	return string(b)
 }
 
 // Partial is a smaller struct over the same table (Find/Scan with Model(&Item{})).
@@ -22,14 +91,41 @@ type Partial struct {
 	B  string
 }
 
-const schemaSQL = `CREATE TABLE items (id integer primary key, a integer, b text, c integer)`
+const schemaSQL = `CREATE TABLE items (id integer primary key, a integer, b text, c integer, l text, p text)`
 
 // idOf gives the key of the i-th row in key order: keys are not contiguous, so
 // "id > k" cuts between rows and a cursor off by one row is visible.
 func idOf(i int) uint { return uint(3*i + 2) }
 
-// tableRows returns the rows of the table of size n, in key order.
+// tableRows returns the rows of the table of size n, in key order (a copy of
+// the slice; the rows themselves are shared and never modified).
 func tableRows(n int) []Item {
+	return append([]Item(nil), allRows[:n]...)
+}
+
+const maxRows = 32
+
+var (
+	allRows   = buildRows(maxRows)
+	expKeyOf  = map[uint]string{} // canonical form of every table row, by key
+	zeroKeyOf = rowKey(Item{})
+)
+
+func init() {
+	for _, it := range allRows {
+		expKeyOf[it.ID] = rowKey(it)
+	}
+}
+
+// expKey is rowKey for rows of the reference table (memoised).
+func expKey(it Item) string {
+	if it.ID == 0 {
+		return zeroKeyOf
+	}
+	return expKeyOf[it.ID]
+}
+
+func buildRows(n int) []Item {
 	out := make([]Item, n)
 	for i := 0; i < n; i++ {
 		it := Item{ID: idOf(i), A: i % 3, B: fmt.Sprintf("b%d", idOf(i))}
@@ -37,7 +133,21 @@ func tableRows(n int) []Item {
 			v := 10 * i
 			it.C = &v
 		}
+		// every row has its own label keys (and some share a key with another value)
+		it.L = Labels{fmt.Sprintf("k%d", i): fmt.Sprintf("v%d", it.ID)}
+		if i%2 == 1 {
+			it.L["env"] = fmt.Sprintf("e%d", i%4)
+		}
+		it.P = &Meta{Tag: fmt.Sprintf("t%d", it.ID), Nums: seqN(i % 3)}
 		out[i] = it
+	}
+	return out
+}
+
+func seqN(n int) []int {
+	out := []int{}
+	for i := 0; i < n; i++ {
+		out = append(out, 100*n+i)
 	}
 	return out
 }
@@ -82,6 +192,10 @@ type condDef struct {
 	Inline func(arg int) []interface{}
 	// Thorough marks conditions enumerated only in the thorough tier.
 	Thorough bool
+	// OrGrid marks the Or-chain conditions: they are enumerated in their own grid (E).
+	OrGrid bool
+	// TopOr: the chain's WHERE has an OR term at its top level (not inside a group).
+	TopOr bool
 }
 
 func idAt(n, i int) int {
@@ -121,6 +235,24 @@ var conds = []condDef{
 		Match:  func(it Item, v int) bool { return it.A == v },
 		Where:  func(db *gorm.DB, v int) *gorm.DB { return db.Where(&Item{A: v}) },
 		Inline: func(v int) []interface{} { return []interface{}{&Item{A: v}} }},
+	// ---- Or-chains (grid E). Reference: u1 op u2 op u3 with SQL precedence (AND binds tighter).
+	{Label: `Where("a = 0").Or("a = 2")`, OrGrid: true, TopOr: true, Arg: func(n int) int { return 0 },
+		Match: func(it Item, _ int) bool { return it.A == 0 || it.A == 2 },
+		Where: func(db *gorm.DB, _ int) *gorm.DB { return db.Where("a = ?", 0).Or("a = ?", 2) }},
+	{Label: `Or("a = 1")`, OrGrid: true, TopOr: true, Arg: func(n int) int { return 1 },
+		Match: func(it Item, v int) bool { return it.A == v },
+		Where: func(db *gorm.DB, v int) *gorm.DB { return db.Or("a = ?", v) }},
+	{Label: `Where("a = 0").Or("a = 1").Where("id > lo")`, OrGrid: true, TopOr: true, Arg: func(n int) int { return idAt(n, n/3) },
+		Match: func(it Item, k int) bool { return it.A == 0 || (it.A == 1 && int(it.ID) > k) },
+		Where: func(db *gorm.DB, k int) *gorm.DB { return db.Where("a = ?", 0).Or("a = ?", 1).Where("id > ?", k) }},
+	{Label: `Not("a = 0").Or("id = first")`, OrGrid: true, TopOr: true, Arg: func(n int) int { return idAt(n, 0) },
+		Match: func(it Item, k int) bool { return it.A != 0 || int(it.ID) == k },
+		Where: func(db *gorm.DB, k int) *gorm.DB { return db.Not("a = ?", 0).Or("id = ?", k) }},
+	{Label: `Where(db.Where("a = 0").Or("a = 2"))`, OrGrid: true, Arg: func(n int) int { return 0 },
+		Match: func(it Item, _ int) bool { return it.A == 0 || it.A == 2 },
+		Where: func(db *gorm.DB, _ int) *gorm.DB {
+			return db.Where(db.Session(&gorm.Session{NewDB: true}).Where("a = ?", 0).Or("a = ?", 2))
+		}},
 }
 
 type orderDef struct {
@@ -297,7 +429,7 @@ func rowKey(it Item) string {
 	if it.C != nil {
 		cs = fmt.Sprint(*it.C)
 	}
-	return fmt.Sprintf("%d|%d|%s|%s", it.ID, it.A, it.B, cs)
+	return fmt.Sprintf("%d|%d|%s|%s|%s|%s", it.ID, it.A, it.B, cs, labelsText(it.L), metaText(it.P))
 }
 
 func rowKeys(items []Item) []string {
